@@ -166,7 +166,7 @@ CHECKS = {
                    thorough=dict(checks=800000, shards=16, timeout=3000)),
               # the real zeroconf provider over real multicast sockets: 2-4 managers in one process, announce / withdraw / auto accept
               # histories; what one announces is what the others read (skipped where multicast does not work)
-              dict(engine="zcnet", test="TestC16ZC", shrinktime="1s", may_stop_early=True, quick=dict(checks=3, shards=1, timeout=900),
+              dict(engine="zcnet", test="TestC16ZC", shrinktime="1s", may_stop_early=True, quick=dict(checks=4, shards=1, timeout=900),
                    thorough=dict(checks=40, shards=2, timeout=6000), env=dict(VERIF_BATCH="3"))],
     ),
     "C17": dict(
@@ -183,7 +183,7 @@ CHECKS = {
               dict(engine="hubnet", test="TestC17Hub", shrinktime="1s", quick=dict(checks=4, shards=4, timeout=1200),
                    thorough=dict(checks=40, shards=4, timeout=6000), env=dict(VERIF_BATCH="8")),
               # the real zeroconf provider over real multicast sockets: the managers' views follow announcements and withdrawals
-              dict(engine="zcnet", test="TestC17ZC", shrinktime="1s", may_stop_early=True, quick=dict(checks=3, shards=1, timeout=900),
+              dict(engine="zcnet", test="TestC17ZC", shrinktime="1s", may_stop_early=True, quick=dict(checks=4, shards=1, timeout=900),
                    thorough=dict(checks=40, shards=2, timeout=6000), env=dict(VERIF_BATCH="3"))],
         assumptions=["removes with invalid TXT for a known service are not generated (neither provider produces them; the statement leaves them open)"],
     ),
